@@ -81,6 +81,83 @@ func runC11proc(c *runCtx) {
 		}
 		c.violate("converge:handoff-never-resumes-after-transport-recovery", fmt.Sprintf("the http receiver %s refused connections for %v and has been accepting them for 20 s, but the task __invoke:%s was never handed to it (dispatch cycle every 50 ms)", addr, down, id), nil)
 	}
+	// receivers that accept the connection and then say nothing, one addressed as http, one as https (so the silence
+	// falls into the TLS handshake): such a hand-off fails after the transport's timeout and is retried; it must not
+	// keep a task for a healthy receiver from being delivered
+	{
+		var silent []net.Listener
+		var conns []net.Conn
+		var cmu sync.Mutex
+		for _, scheme := range []string{"http", "https"} {
+			ln, err := net.Listen("tcp", "127.0.0.1:0")
+			if err != nil {
+				continue
+			}
+			silent = append(silent, ln)
+			go func() {
+				for {
+					cn, err := ln.Accept()
+					if err != nil {
+						return
+					}
+					cmu.Lock()
+					conns = append(conns, cn) // kept open, never answered
+					cmu.Unlock()
+				}
+			}()
+			srv.JSON("POST", "/promises", nil, map[string]any{"id": "c11.silent." + scheme, "timeout": time.Now().UnixMilli() + 3600_000, "tags": map[string]string{"resonate:invoke": scheme + "://" + ln.Addr().String() + "/recv"}})
+		}
+		time.Sleep(1500 * time.Millisecond) // a few cycles against the silent receivers
+		var mu sync.Mutex
+		got := map[string]bool{}
+		ln, err := net.Listen("tcp", "127.0.0.1:0")
+		if err == nil {
+			hs := &nethttp.Server{Handler: nethttp.HandlerFunc(func(w nethttp.ResponseWriter, r *nethttp.Request) {
+				b, _ := io.ReadAll(r.Body)
+				mu.Lock()
+				for i := 0; i < 3; i++ {
+					if strings.Contains(string(b), fmt.Sprintf("__invoke:c11.healthy.%d", i)) {
+						got[fmt.Sprint(i)] = true
+					}
+				}
+				mu.Unlock()
+				w.WriteHeader(200)
+			})}
+			go func() { _ = hs.Serve(ln) }()
+			for i := 0; i < 3; i++ {
+				srv.JSON("POST", "/promises", nil, map[string]any{"id": fmt.Sprintf("c11.healthy.%d", i), "timeout": time.Now().UnixMilli() + 3600_000, "tags": map[string]string{"resonate:invoke": "http://" + ln.Addr().String() + "/recv"}})
+			}
+			up := time.Now()
+			n := 0
+			for time.Since(up) < 25*time.Second && n < 3 {
+				time.Sleep(50 * time.Millisecond)
+				mu.Lock()
+				n = len(got)
+				mu.Unlock()
+			}
+			_ = hs.Close()
+			c.rep.Events++
+			c.rep.FaultPoints++
+			c.rep.Evaluations++
+			c.rep.Nontriv("c11proc-silent")
+			if n == 3 {
+				c.rep.Hit("c11proc.delivered-next-to-silent-receivers")
+				c.rep.HitN("c11proc.ms-until-delivery-next-to-silent-receivers", int(time.Since(up).Milliseconds()))
+			} else if ok, why := srv.Healthy(); !ok {
+				c.violate("converge:server-unhealthy-after-transport-failures", "with two silent receivers the server is not healthy: "+why, nil)
+			} else {
+				c.violate("converge:silent-receiver-blocks-dispatch", fmt.Sprintf("two receivers accept connections and never answer (one http, one https); %d of 3 tasks for a healthy receiver were delivered within 25 s although the server is alive and healthy", n), nil)
+			}
+		}
+		for _, l := range silent {
+			l.Close()
+		}
+		cmu.Lock()
+		for _, cn := range conns {
+			cn.Close()
+		}
+		cmu.Unlock()
+	}
 	if len(c.rep.Samples) < 2 {
 		c.rep.Sample(map[string]any{"family": "c11proc", "receiver_down_for": "1.5s, 4s", "http_timeout": "300ms"})
 	}
